@@ -430,7 +430,10 @@ def write_evidence(mod, tier, base_seed, total, cfg, wall_s, nviol, known_printe
         "distinct_abstract_states": len(total["states"]),
         "distinct_schedules": len(total["scheds"]),
         "components_real": comps.get("real", []),
-        "components_stub": comps.get("stub", []),
+        "components_stub": list(comps.get("stub", [])) + (
+            [] if any("logging" in c for c in comps.get("real", []) + comps.get("stub", [])) else
+            ["logging (switched off in simulation: the code's logging calls return without rendering "
+             "their arguments)"]),
         "workers": NWORKERS,
         "wall_capped": total["wall_capped"],
         "sim_cfg": cfg,
